@@ -19,6 +19,11 @@ Monitors:
   op    ChannelList unary / binary operators and operator methods, both
         operand orders.
   meth  ChannelList convenience methods (range, lag, linlin, madd, ...).
+        Cases in which both the expanded call and the per-element calls raise
+        give no verdict; a canonical plain call per method records the methods
+        that raise for every argument as counters only
+        (observed_unusable_method/<name>) - real bugs, but not violations of
+        the wrap-and-zip law.
   out   Out / ReplaceOut / OffsetOut / XOut / LocalOut: the decoded output
         units must be exactly the reference expansion of (fixed args +
         channel array) with literal zeros replaced by an audio-rate DC(0).
@@ -59,6 +64,9 @@ ASSUMPTIONS = [
     "empty lists, tuples as operands of ChannelList arithmetic (sc3 documents "
     "that list arithmetic also zips tuples) and number receivers of named "
     "convenience methods are outside the domain",
+    "methods that fail for every argument (both the expanded call and the "
+    "per-element calls raise) are counted (observed_unusable_method/<name>), "
+    "not judged: they cannot violate the law",
 ]
 MIN_COUNTERS = {
     'quick': {'gen_compared': 1500, 'gen_unit_count_checks': 1500,
@@ -1065,8 +1073,12 @@ def meth_leaf(H, name):
     return leaf
 
 
-# canonical plain call per method: a method that raises for it (other than a
-# declared NotImplementedError) can never yield a channel list
+# canonical plain call per method.  A method that raises for every call cannot
+# violate the wrap-and-zip law (the expanded call and the per-element calls
+# fail alike), so this monitor only COUNTS such methods
+# (observed_unusable_method/<name>, see proposed_fixes/
+# C03-unusable-convenience-methods.md); it is evidence of why the differential
+# monitor never compares them, not a verdict
 CANON_NUM = [0.25, 0.5, 0.75, 1.0, 2.0, 4.0]
 
 
@@ -1093,11 +1105,11 @@ def usable_methods_monitor(acc, H):
         H.build(body)
         acc.count('meth_canonical_calls')
         if 'exc' in st:
-            acc.violation(
-                f'C03/chlist-method/{name}/unusable/{exc_site(st["exc"])}',
-                {'case': 0, 'method': name, 'receiver': 'ChannelList of two '
-                 'audio units', 'args': st['args'],
-                 'exception': short_tb(st['exc'])})
+            acc.count(f'observed_unusable_method/{name}')
+            acc.extra.setdefault('unusable_methods', {})[name] = \
+                f"{exc_site(st['exc'])}: {str(st['exc'])[:120]}"
+        elif 'declared' in st:
+            acc.count(f'observed_not_implemented_method/{name}')
         elif 'r' in st and not (isinstance(st['r'], H.ChannelList)
                                 and len(st['r']) == 2):
             acc.violation(f'C03/chlist-method/{name}/canonical-call-shape',
